@@ -118,6 +118,7 @@ HARNESS_SRCS = {
     "h_streams": ["src/byte-buffer.c", "src/endpoints/core.c", "src/endpoints/buffer.c", "src/endpoints/trivial.c",
                   "src/rfc1055.c", "src/variable-length-integer.c", "src/length-prefix.c"],
     "h_persist": ["src/persistent-storage.c", "src/crc-16-arc.c"],
+    "h_sx": ["src/sx.c", "src/compat/strlcpy.c"],
     "h_codec": ["src/byte-buffer.c", "src/variable-length-integer.c", "src/endpoints/core.c", "src/crc-16-arc.c"],
 }
 
